@@ -6,6 +6,7 @@ mod util;
 mod sc_nested;
 mod sc_ring;
 mod sc_bmoc;
+mod race;
 mod sc_proj;
 mod sc_zoc;
 
@@ -14,6 +15,7 @@ use util::*;
 
 fn main() {
   let args = Args::parse();
+  if args.pos.len() >= 1 && args.pos[0] == "race" { silence_panics(); race::run(&args); return; }
   if args.pos.len() < 2 { eprintln!("usage: hpx record|replay <scenario> [--seed S] [--count N] [--in F] [--out F]"); std::process::exit(2); }
   silence_panics();
   let seed = args.u64("seed", 1);
